@@ -16,6 +16,10 @@ FAMILIES = {
                 "tiers": {"quick": {"num": 120, "depth": 30, "workers": 4}, "thorough": {"num": 4000, "depth": 40, "workers": 8, "timeout": 1800}}},
         "trace_module": "RnsTrace", "trace_cfg": "Rns-trace.cfg",
         "vh_cfg": {},
+        # two name sets: label lengths 5 / 2 / 4 and 1 / 3 / 6 (+ a 10-character .ibc name): every price tier of both TLDs
+        "variants": [{"vh_cfg": {}, "sim_subst": {}},
+                     {"vh_cfg": {"names": ["x.jkl", "abc.jkl", "abcdef.jkl", "longername.ibc"]},
+                      "sim_subst": {"Names": '{"x.jkl", "abc.jkl", "abcdef.jkl", "longername.ibc"}'}}],
         "tiers": {"quick": {"rand": 200, "rlen": 40, "chunks": 8}, "thorough": {"rand": 6000, "rlen": 60, "chunks": 14}},
     },
     "sd": {
@@ -44,7 +48,10 @@ FAMILIES = {
         "sim": {"module": "SimSP", "cfg": "SP-sim.cfg",
                 "tiers": {"quick": {"num": 100, "depth": 40, "workers": 4}, "thorough": {"num": 2000, "depth": 50, "workers": 8, "timeout": 2400}}},
         "trace_module": "SPTrace", "trace_cfg": "SP-trace.cfg",
-        "variants": [{"vh_cfg": {}, "sim_subst": {}}, {"vh_cfg": {"fine": True, "price": 15, "fund": 1200000000}, "sim_subst": {}}],
+        # first variant: hour ticks, small amounts, at a realistic chain height (block-count arithmetic such as expiry - height only
+        # shows its mistakes when the height is not close to zero); second variant: fine time, TB-scale deposits (C12 formulas only)
+        "variants": [{"vh_cfg": {"h0": 5000002}, "sim_subst": {"H0": "5000002", "MAXH": "5000060"}},
+                     {"vh_cfg": {"fine": True, "price": 15, "fund": 1200000000}, "sim_subst": {}}],
         "tiers": {"quick": {"rand": 300, "rlen": 50, "chunks": 8}, "thorough": {"rand": 6000, "rlen": 60, "chunks": 14}},
     },
     "mint": {
@@ -312,6 +319,11 @@ PROPS = {
         "assumptions": COMMON_ASSUME + ["address-typed fields are recognised by field name", "the wasm clause calls wasmbinding.PerformPostFile directly; no contract is executed"],
     },
 }
+
+# C04 / C07 formulas are evaluated on the coarse (hour-tick) sp variants only: both of their variants are coarse
+_SP_COARSE = [{"vh_cfg": {"h0": 5000002}, "sim_subst": {"H0": "5000002", "MAXH": "5000060"}}, {"vh_cfg": {}, "sim_subst": {}}]
+for _pid in ("C04", "C07"):
+    PROPS[_pid].setdefault("per_family", {})["sp"] = {"variants": _SP_COARSE}
 
 # Whole-application token ledger (family "ledger", spec/Ledger.tla): second family of the properties with a token-flow clause.
 # (formulas decided on ledger traces, non-triviality tag of LedgerTrace, design rules whose removal TLC must detect)
